@@ -27,7 +27,12 @@ from common import Check, Driver, Infra, VERIF, sarpy_guard  # noqa
 sys.path.insert(0, os.path.join(VERIF, 'translate'))
 
 REQUIRED = ['parse_serialize', 'serialize_parse_serialize', 'parse_serialize_twice', 'parse_serialize_any_fuel', 'ofDict_toDict', 'copy_eq', 'copy_eq_any_fuel',
-            'parseRow_serialized', 'row_view', 'filter_flatMap_key', 'serializeN_tag']
+            'parseRow_serialized', 'row_view', 'filter_flatMap_key', 'serializeN_tag',
+            # C05X: coefficient arrays, float arrays, object arrays (bounds, index canonicalisation), parameter collections
+            'parsePoly_serializePoly', 'polyOfDict_polyToDict', 'parsePolyBody_polyBody', 'readCoefs1_perm', 'readCoefs1_sparse',
+            'place_enum', 'place_perm', 'place_drop_fill', 'enumRows_eq', 'chunk_flatten', 'farr_parse', 'sizeOk_written',
+            'reindex_idem', 'reindex_of_canon', 'finishArr_of_wf', 'dedupe_of_distinct', 'dedupe_idem', 'parseArray_canon',
+            'parseParams_canon', 'wfField_mono', 'Example.codec_laws']
 
 SIZE_BASE = 1000000000
 FAMILY_URN = {
@@ -114,8 +119,16 @@ def regex_example(pattern, rng):
 class Generator:
     """instances built from the descriptors of a class (what the tables are built from)"""
 
-    def __init__(self, edge_strings=False):
+    def __init__(self, edge_strings=False, nonstandard=()):
         self.edge_strings = edge_strings
+        self.nonstandard = set(nonstandard)      # (qualified class, field): draw a value OUTSIDE the enumeration / pattern
+
+    def off_domain(self, cls, attr, d, rng, p=0.08):
+        """lenient (non-strict) enumeration / pattern descriptors accept any value with a logged error: such values are part of what
+        a structure can hold, and must survive the round trips like the standard ones"""
+        if getattr(d, 'strict', True):
+            return False
+        return (cls.__module__ + '.' + cls.__qualname__, attr) in self.nonstandard or rng.random() < p
 
     def string(self, rng):
         if self.edge_strings and rng.random() < 0.5:
@@ -125,14 +138,29 @@ class Generator:
     def prim(self, d, rng, cls, attr):
         from sarpy.io.xml import descriptors as D
         if isinstance(d, D.StringEnumDescriptor):
+            if self.off_domain(cls, attr, d, rng):
+                std = sorted(d.values)
+                cands = [v for v in ['MULTISTATIC', 'MONO32F', rng.choice(std).lower(), rng.choice(std) + '_X', 'Non standard value', 'OTHER:x']
+                         if v not in d.values]
+                if cands:
+                    return rng.choice(cands)
             return rng.choice(sorted(d.values))
         if isinstance(d, D.StringRegexDescriptor):
+            if self.off_domain(cls, attr, d, rng):
+                import re
+                cands = [v for v in ['no match here', '?', 'x y z', '12 34'] if not re.compile(d.pattern).fullmatch(v)]
+                if cands:
+                    return rng.choice(cands)
             return regex_example(d.pattern, rng)
         if isinstance(d, D.StringDescriptor):
             return self.string(rng)
         if isinstance(d, D.BooleanDescriptor):
             return rng.random() < 0.5
         if isinstance(d, D.IntegerEnumDescriptor):
+            if self.off_domain(cls, attr, d, rng):
+                cands = [v for v in [max(d.values) + 1, min(d.values) - 1, 77, -3] if v not in d.values]
+                if cands:
+                    return rng.choice(cands)
             return rng.choice(sorted(d.values))
         if isinstance(d, D.IntegerDescriptor):
             return rand_int(rng, d.bounds)
@@ -154,10 +182,10 @@ class Generator:
 
     def length(self, rng, mode, lo, hi, optional=True):
         lo = max(0, lo or 0)
-        hi = 3 if hi is None else min(hi, max(3, lo))
+        hi = 4 if hi is None else min(hi, max(4, lo))
         hi = max(hi, lo)
         if mode == 'full':
-            return max(lo, min(hi, rng.choice([1, 2, 3])))
+            return max(lo, min(hi, rng.choice([1, 2, 3, 4])))
         return rng.randint(lo, hi)
 
     def field(self, cls, attr, rng, mode, depth, stack):
@@ -188,7 +216,7 @@ class Generator:
             n = self.length(rng, mode, 0, None)
             out = OrderedDict()
             for _ in range(n):
-                out[self.string(rng)[:40] + str(len(out))] = self.string(rng)
+                out[self.string(rng)[:40] + str(9 - len(out))] = self.string(rng)      # names never in code-point order of insertion
             return out
         if isinstance(d, D.StringListDescriptor):
             return [self.string(rng) for _ in range(self.length(rng, mode, d.minimum_length, d.maximum_length))]
@@ -198,7 +226,9 @@ class Generator:
             return [rand_float(rng) for _ in range(self.length(rng, mode, d.minimum_length, d.maximum_length))]
         if isinstance(d, D.FloatArrayDescriptor):
             n = self.length(rng, mode, d.minimum_length, d.maximum_length)
-            return numpy.array([rand_float(rng) for _ in range(n)], dtype='float64')
+            if rng.random() < 0.3 and d.minimum_length <= 4 <= d.maximum_length:
+                n = rng.randint(max(d.minimum_length, 0), 4)
+            return numpy.array([rand_float(rng, None, special=False) if rng.random() < 0.8 else rand_float(rng) for _ in range(n)], dtype='float64')
         if hasattr(d, 'child_type') and hasattr(d, 'child_tag'):      # SerializableArrayDescriptor, SerializableCPArrayDescriptor
             lo, hi = getattr(d, 'minimum_length', 0), getattr(d, 'maximum_length', None)
             n = self.length(rng, mode, lo, hi)
@@ -218,10 +248,21 @@ class Generator:
             two = 'order2' in cls._fields or cls.__name__ in ('Poly2DType',)
             if cls.__name__ in ('BankCustomType', 'KernelCustomType', '_CustomType'):
                 two = True
-            n1, n2 = rng.randint(1, 3), rng.randint(1, 3)
+            # orders 0..5 in either variable; patterns: all zero, all non-zero, sparse mixes; -0.0, denormals, huge values from the pool
+            n1, n2 = rng.randint(1, 6), rng.randint(1, 6)
+            pat = rng.choice(['zero', 'dense', 'sparse', 'sparse', 'pool'])
+
+            def coef():
+                if pat == 'zero':
+                    return rng.choice([0.0, 0.0, 0.0, -0.0])
+                if pat == 'dense':
+                    return rng.choice([1.0, -2.5, 1e-7, 123456789.12345679, 5e-324, 1e308, 0.1])
+                if pat == 'sparse':
+                    return rng.choice([0.0, 0.0, -0.0, 1.0, 2.2250738585072014e-308, -1e308, 0.30000000000000004])
+                return rand_float(rng, None, special=False)
             if two:
-                return numpy.array([[rand_float(rng, None, special=False) for _ in range(n2)] for _ in range(n1)], dtype='float64')
-            return numpy.array([rand_float(rng, None, special=False) for _ in range(n1)], dtype='float64')
+                return numpy.array([[coef() for _ in range(n2)] for _ in range(n1)], dtype='float64')
+            return numpy.array([coef() for _ in range(n1)], dtype='float64')
         if attr in ('ECF',):
             return [rng.uniform(-7e6, 7e6) for _ in range(3)]
         if attr in ('LLH',):
@@ -592,7 +633,7 @@ class ModelCodec:
             seen[i] = len(order)
             order.append(i)
             rows = self.info['tables'][self.info['order'][i]]
-            for r in rows or []:
+            for r in (rows if isinstance(rows, list) else []):
                 if 'cid' in r:
                     visit(r['cid'])
         visit(root_cid)
@@ -601,12 +642,23 @@ class ModelCodec:
     def qn(self, t):
         return f'{self.nss.get(t[0])}:{self.tags.get(t[1])}'
 
-    def encode_tabs(self, order, seen):
+    def encode_tabs(self, order, seen, texts):
+        """mini tables of one request; constants travel as the ids of their texts"""
         cls_s = []
         for i in order:
-            rows = self.info['tables'][self.info['order'][i]]
+            key = self.info['order'][i]
+            rows = self.info['tables'][key]
             if rows is None:
                 cls_s.append('C')
+                continue
+            if isinstance(rows, dict):
+                sp = rows['poly']
+                a0 = lambda n_: f'0:{self.tags.get(n_)}'
+                fill = texts.get(poly_fmt(self.info['classes'][key[0]], sp)(0.0))
+                w = '-' if sp['wrap_q'] is None else f'{self.qn(sp["wrap_q"][0])}:{self.qn(sp["wrap_q"][1])}'
+                cls_s.append('Y' + ':'.join([('1' if sp['two'] else '0'), self.qn(sp['coef_q']), self.qn(sp['pcoef_q']), a0(sp['dim1']), a0(sp['pdim1']),
+                                             a0(sp['dim2']), a0(sp['pdim2']), a0(sp['exp1']), a0(sp['pexp1']), a0(sp['exp2']), a0(sp['pexp2']),
+                                             str(sp['off']), str(self.tx.PRIM_ID['float']), str(self.names.get(sp['dname'])), str(fill), w]))
                 continue
             rs = []
             for r in rows:
@@ -617,9 +669,24 @@ class ModelCodec:
                     kk = f'c{seen[r["cid"]]}'
                 elif k == 'list':
                     kk = f'l{seen[r["cid"]]}'
+                elif k == 'array':
+                    sz = '-:-' if r['size'] is None else f'0:{self.tags.get(r["size"])}'
+                    ip = '-' if r['idxpos'] is None else str(r['idxpos'])
+                    lb = '-' if not r['labels'] else '.'.join(str(texts.get(l)) for l in r['labels'])
+                    kk = f'y{seen[r["cid"]]}:{self.qn(r["ctag"])}:{self.qn(r["pctag"])}:{sz}:0:{self.tags.get(r["psize"])}:{r["minlen"]}:{r["maxlen"]}:{ip}:{lb}:{r["idxlimit"]}'
+                elif k == 'floatarr':
+                    kk = (f'f{self.tx.PRIM_ID[r["prim"]]}:{self.qn(r["ctag"])}:{self.qn(r["pctag"])}:0:{self.tags.get(r["size"])}:0:{self.tags.get(r["psize"])}'
+                          f':0:{self.tags.get(r["idxattr"])}:{r["base"]}')
+                elif k == 'params':
+                    kk = f'q{seen[r["cid"]]}:' + ('-' if not r.get('wrap') else f'{self.qn(r["wrap"][0])}:{self.qn(r["wrap"][1])}')
+                elif k == 'count':
+                    kk = f'n{self.tx.PRIM_ID[r["prim"]]}:{r["src"]}'
+                elif k == 'const':
+                    kk = f'k{self.tx.PRIM_ID[r["prim"]]}:{texts.get(self.tx.const_text(r))}:{1 if r["as_attr"] else 0}'
+                elif k == 'which':
+                    kk = f'w{self.tx.PRIM_ID[r["prim"]]}:' + ('/'.join(f'{i_}.{texts.get(a_)}' for i_, a_ in r['alts']) or '-')
                 else:
-                    sz = '-' if r['size'] is None else f'0:{self.tags.get(r["size"])}'
-                    kk = f'y{seen[r["cid"]]}:{self.qn(r["ctag"])}:{self.qn(r["pctag"])}:{sz}'
+                    raise Infra(f'encode_tabs: row kind {k}')
                 rs.append(f'{self.names.get(r["name"])}:{self.qn(r["tag"])}:{self.qn(r["ptag"])}:{1 if r["required"] else 0}:{kk}')
             cls_s.append('R' + ','.join(rs))
         return ';'.join(cls_s)
@@ -642,16 +709,31 @@ class ModelCodec:
         return fmt(v)
 
 
+def poly_fmt(cls, sp):
+    """the formatting function a coefficient array class applies to its coefficients (`self._get_formatter(<key>)`)"""
+    entry = cls._numeric_format.get(sp['fmt_key'])
+    if isinstance(entry, str):
+        return ('{0:' + entry + '}').format
+    return entry if callable(entry) else str
+
+
 class Texts:
+    """texts interned as numbers; a canonical decimal natural n is SIZE_BASE + n on both sides (the model's str(n) / int(text))"""
+
     def __init__(self):
         self.ids = {}
         self.names = []
 
     def get(self, s):
+        if isinstance(s, str) and s.isascii() and s.isdigit() and (s == '0' or s[0] != '0') and len(s) < 30:
+            return SIZE_BASE + int(s)
         if s not in self.ids:
             self.ids[s] = len(self.names)
             self.names.append(s)
         return self.ids[s]
+
+    def name(self, i):
+        return str(i - SIZE_BASE) if i >= SIZE_BASE else self.names[i]
 
 
 def et_to_tokens(node, nsmap, mc, texts, toks):
@@ -709,10 +791,27 @@ def value_tokens(x, gcid, mc, seen, texts, toks, for_dict):
         toks.append(f'B{head[2]}:{head[3]}:{head[4]}')
         toks.extend(sub[1:])
         return
+    if isinstance(rows, dict):
+        # coefficient array: the value is the array itself (1-D: list of coefficients; 2-D: list of rows)
+        sp = rows['poly']
+        fmt = x._get_formatter(sp['fmt_key'])
+        co = x.Coefs
+        if sp['two']:
+            toks.append(f'N{co.shape[0]}')
+            for row in co:
+                toks.append(f'N{len(row)}')
+                toks.extend(f'P{texts.get(fmt(v))}' for v in row)
+        else:
+            toks.append(f'N{co.shape[0]}')
+            toks.extend(f'P{texts.get(fmt(v))}' for v in co)
+        return
     toks.append(f'N{len(rows)}')
     for r in rows:
-        v = getattr(x, r['name'])
         k = r['kind']
+        if k in ('count', 'const', 'which'):
+            toks.append('A')      # derived: carries no information
+            continue
+        v = getattr(x, r['name'])
         if v is None:
             toks.append('A')
         elif k in ('prim', 'attr'):
@@ -724,7 +823,7 @@ def value_tokens(x, gcid, mc, seen, texts, toks, for_dict):
             toks.append(f'P{texts.get(fmt(v.imag))}')
         elif k == 'child':
             value_tokens(v, r['cid'], mc, seen, texts, toks, for_dict)
-        elif k == 'list' and r['cls'] == mc.tx.SYN_PARAM:
+        elif k == 'params':
             d = v.get_collection() if isinstance(v, ParametersCollection) else v
             if not d and not for_dict:
                 toks.append('A')
@@ -744,7 +843,7 @@ def value_tokens(x, gcid, mc, seen, texts, toks, for_dict):
                 toks.append(f'N{len(items)}')
                 for it in items:
                     value_tokens(it, r['cid'], mc, seen, texts, toks, for_dict)
-        elif k == 'primlist':
+        elif k in ('primlist', 'floatarr'):
             if len(v) == 0 and not for_dict:
                 toks.append('A')
             else:
@@ -770,6 +869,22 @@ def _dict_tokens(x, d, gcid, mc, texts, toks):
         value_tokens(x, gcid, mc, None, texts, sub, True)
         toks.extend(sub)
         return
+    if isinstance(rows, dict):
+        sp = rows['poly']
+        fmt = x._get_formatter(sp['fmt_key'])
+        keys = list(d.keys())
+        if keys != [sp['dname']]:
+            toks.append(f'?polykeys:{keys}')
+            return
+        co = d[sp['dname']]
+        toks += ['D1', f'K{mc.names.get(sp["dname"])}', f'L{len(co)}']
+        for e in co:
+            if sp['two']:
+                toks.append(f'L{len(e)}')
+                toks.extend(f'P{texts.get(fmt(v))}' for v in e)
+            else:
+                toks.append(f'P{texts.get(fmt(e))}')
+        return
     byname = {r['name']: r for r in rows}
     keys = list(d.keys())
     toks.append(f'D{len(keys)}')
@@ -782,7 +897,9 @@ def _dict_tokens(x, d, gcid, mc, texts, toks):
         v = getattr(x, key)
         dv = d[key]
         k = r['kind']
-        if k in ('prim', 'attr'):
+        if k in ('count', 'const', 'which'):
+            toks.append(f'P{texts.get(dv if isinstance(dv, str) else str(dv))}')
+        elif k in ('prim', 'attr'):
             toks.append(f'P{texts.get(mc.prim_text(x, key, v, k == "attr"))}')
         elif k == 'child' and r['cls'] == mc.tx.SYN_COMPLEX:
             fmt = x._get_formatter(key)
@@ -792,7 +909,7 @@ def _dict_tokens(x, d, gcid, mc, texts, toks):
             toks += ['D2', f'K{mc.names.get("Real")}', f'P{texts.get(fmt(dv["Real"]))}', f'K{mc.names.get("Imag")}', f'P{texts.get(fmt(dv["Imag"]))}']
         elif k == 'child':
             _dict_tokens(v, dv, r['cid'], mc, texts, toks)
-        elif k == 'list' and r['cls'] == mc.tx.SYN_PARAM:
+        elif k == 'params':
             toks.append(f'L{len(dv)}')
             for kk, vv in dv.items():
                 toks += ['D2', f'K{mc.names.get("name")}', f'P{texts.get(kk)}', f'K{mc.names.get("value")}', f'P{texts.get(vv if isinstance(vv, str) else str(vv))}']
@@ -804,7 +921,7 @@ def _dict_tokens(x, d, gcid, mc, texts, toks):
                 continue
             for it, dit in zip(items, dv):
                 _dict_tokens(it, dit, r['cid'], mc, texts, toks)
-        elif k == 'primlist':
+        elif k in ('primlist', 'floatarr'):
             fmt = x._get_formatter(key)
             toks.append(f'L{len(dv)}')
             for it in dv:
@@ -841,6 +958,125 @@ def decode_size_texts(tokens, texts):
         out.append(t)
     return ','.join(out)
 
+
+
+# ------------------------------------------------------------------------------------------------ documents sarpy did not write
+
+FOREIGN_OPS = ('perm-coef', 'sparse-coef', 'shuffle-index', 'dup-param', 'perm-params', 'change-derived', 'drop-derived', 'bad-size',
+               'too-long', 'too-short')
+
+
+def _local(t):
+    return t.rsplit('}', 1)[-1]
+
+
+def foreign_variant(b, op, rng, derived_tags=(), top_arrays=()):
+    """one edit of a document sarpy wrote, of the kind the hand-written readers must cope with; returns new bytes or None when
+    the document has no site for the edit.  Edits that can make a reader refuse the document are applied to direct children of
+    the root only (a failure inside a nested structure is swallowed by SerializableDescriptor and turns into an absent field)."""
+    root = ElementTree.fromstring(b)
+    nodes = list(root.iter())
+    done = False
+    if op == 'perm-coef':
+        sites = [n for n in nodes if sum(1 for ch in n if _local(ch.tag) == 'Coef') >= 2]
+        if sites:
+            n = rng.choice(sites)
+            idx = [i for i, ch in enumerate(n) if _local(ch.tag) == 'Coef']
+            chs = [n[i] for i in idx]
+            for _ in range(6):
+                perm = chs[:]
+                rng.shuffle(perm)
+                if any(x is not y for x, y in zip(perm, chs)):
+                    break
+            for i, ch in zip(idx, perm):
+                n[i] = ch
+            done = True
+    elif op == 'sparse-coef':
+        for n in nodes:
+            for ch in list(n):
+                if _local(ch.tag) == 'Coef' and ch.text is not None:
+                    try:
+                        v = float(ch.text)
+                    except ValueError:
+                        continue
+                    if v == 0.0 and math.copysign(1.0, v) > 0 and rng.random() < 0.8:
+                        n.remove(ch)
+                        done = True
+    elif op == 'shuffle-index':
+        for key in ('index', 'k'):
+            sites = [n for n in nodes if len(n) >= 2 and all(key in ch.attrib for ch in n)]
+            if sites:
+                n = rng.choice(sites)
+                vals = [ch.attrib[key] for ch in n]
+                vals = vals[1:] + vals[:1] if rng.random() < 0.5 else vals[::-1]
+                for ch, v in zip(n, vals):
+                    ch.attrib[key] = v
+                done = True
+                break
+    elif op in ('dup-param', 'perm-params'):
+        sites = [n for n in nodes if sum(1 for ch in n if 'name' in ch.attrib and len(ch) == 0) >= (1 if op == 'dup-param' else 2)]
+        if sites:
+            n = rng.choice(sites)
+            ps = [i for i, ch in enumerate(n) if 'name' in ch.attrib and len(ch) == 0]
+            if op == 'dup-param':
+                first = n[ps[0]]
+                dup = ElementTree.Element(first.tag, dict(first.attrib))
+                dup.text = 'second value of ' + first.attrib['name'][:20]
+                n.insert(ps[-1] + 1, dup)
+            else:
+                chs = [n[i] for i in ps][::-1]
+                for i, ch in zip(ps, chs):
+                    n[i] = ch
+            done = True
+    elif op in ('change-derived', 'drop-derived'):
+        sites = [(n, ch) for n in nodes for ch in n if len(ch) == 0 and not ch.attrib and _local(ch.tag) in derived_tags and ch.text]
+        if sites:
+            n, ch = rng.choice(sites)
+            if op == 'drop-derived':
+                n.remove(ch)
+            else:
+                ch.text = str(int(ch.text) + 7) if ch.text.isdigit() else ch.text + 'X'
+            done = True
+    elif op == 'bad-size':
+        sites = [ch for ch in root if _local(ch.tag) in top_arrays and (ch.attrib.get('size', '').isdigit() or ch.attrib.get('numLayers', '').isdigit())]
+        if sites:
+            ch = rng.choice(sites)
+            key = 'size' if 'size' in ch.attrib else 'numLayers'
+            ch.attrib[key] = str(int(ch.attrib[key]) + rng.choice([1, 2]))
+            done = True
+    elif op in ('too-long', 'too-short'):
+        sites = [ch for ch in root if _local(ch.tag) in top_arrays and len(ch) >= 1 and len({c2.tag for c2 in ch}) == 1
+                 and (ch.attrib.get('size', '').isdigit() or not ch.attrib) and len(ch[0]) > 0]
+        if sites:
+            ch = rng.choice(sites)
+            if op == 'too-long':
+                for _ in range(rng.choice([1, 2])):
+                    ch.append(_copy.deepcopy(ch[-1]))
+            else:
+                for _ in range(min(len(ch), rng.choice([1, 2]))):
+                    ch.remove(ch[-1])
+            if 'size' in ch.attrib:
+                ch.attrib['size'] = str(len(ch))
+            done = True
+    if not done:
+        return None
+    return root
+
+
+def foreign_bytes(root, nsdecl):
+    """serialise with the prefixes sarpy expects (default namespace unprefixed, sicommon/sfa/ism kept)"""
+    for pfx, uri in nsdecl.items():
+        try:
+            ElementTree.register_namespace(pfx, uri)
+        except ValueError:
+            return None
+    out = ElementTree.tostring(root, encoding='utf-8')
+    # ElementTree declares only the namespaces in use; sarpy's readers insist on every prefix their class tables name
+    end = out.index(b'>')
+    if out[end - 1:end] == b'/':
+        end -= 1
+    extra = b''.join(f' xmlns:{pfx}="{uri}"'.encode() for pfx, uri in sorted(nsdecl.items()) if pfx and f'xmlns:{pfx}='.encode() not in out[:end])
+    return out[:end] + extra + out[end:]
 
 # ------------------------------------------------------------------------------------------------ classification of known defects
 
@@ -957,7 +1193,10 @@ def find_triggers(x, path, out, depth=0):
 
 
 def xml_text_diffs(b1, b2):
-    """leaf-level differences of two documents: list of (tag path, text1, text2), or None when the element structure differs"""
+    """leaf-level differences of two documents: list of (tag path, text1, text2), or None when the element structure differs.
+    One structural difference is followed rather than given up on: a childless element of the first document whose text is
+    whitespace only and which has no counterpart in the second (text2 = None) - what a whitespace-only string value turns into
+    once get_node_value has stripped it to None and the field is no longer written."""
     try:
         r1, r2 = ElementTree.fromstring(b1), ElementTree.fromstring(b2)
     except ElementTree.ParseError:
@@ -967,16 +1206,33 @@ def xml_text_diffs(b1, b2):
     def local(t):
         return t.rsplit('}', 1)[-1]
 
+    def ws_leaf(n):
+        return len(n) == 0 and n.text is not None and n.text != '' and n.text.strip() == ''
+
     def walk(n1, n2, path):
-        if local(n1.tag) != local(n2.tag) or len(n1) != len(n2) or list(n1.attrib) != list(n2.attrib):
+        if local(n1.tag) != local(n2.tag) or list(n1.attrib) != list(n2.attrib):
             return False
         p = path + (local(n1.tag),)
         for k in n1.attrib:
             if n1.attrib[k] != n2.attrib[k]:
                 out.append((p + ('@' + k,), n1.attrib[k], n2.attrib[k]))
-        if len(n1) == 0 and (n1.text or '') != (n2.text or ''):
+        if len(n1) == 0 and len(n2) == 0 and (n1.text or '') != (n2.text or ''):
             out.append((p, n1.text or '', n2.text or ''))
-        return all(walk(c1, c2, p) for c1, c2 in zip(n1, n2))
+        k1, k2 = list(n1), list(n2)
+        i2 = 0
+        for i1, c1 in enumerate(k1):
+            t = local(c1.tag)
+            more1 = sum(1 for c in k1[i1:] if local(c.tag) == t)
+            more2 = sum(1 for c in k2[i2:] if local(c.tag) == t)
+            if i2 < len(k2) and local(k2[i2].tag) == t and not (ws_leaf(c1) and more1 > more2):
+                if not walk(c1, k2[i2], p):
+                    return False
+                i2 += 1
+            elif ws_leaf(c1):
+                out.append((p + (t,), c1.text, None))      # the element disappeared
+            else:
+                return False
+        return i2 == len(k2)
     return out if walk(r1, r2, ()) else None
 
 
@@ -1101,11 +1357,23 @@ def run(tier):
         'outside': info['outside'], 'roots': info['roots'], 'import_failures': info['import_failures'],
         'constructors_with_extra_statements': info['init_extras'], 'writer_reader_tag_mismatch_rows': [list(map(str, m)) for m in info['mismatch_rows']],
         'changed': info['changed'],
+        'hand_written_classes_inside_the_model': {q: l for q, l in sorted(info['labels'].items()) if l not in ('rows', 'opaque')},
+        'constructs': {l: sum(1 for v in info['labels'].values() if tables_xml.construct_family(v) == l)
+                       for l in sorted({tables_xml.construct_family(v) for v in info['labels'].values()})},
+        'class_notes': {q: inf['notes'] for q, (k, inf) in sorted(info['construct'].items()) if k == 'rows' and inf.get('notes')},
+        'no_longer_modelled_as_expected': info['regressions'],
+        'transcribed_functions_pinned': len(info['pins']), 'transcribed_functions_changed': info['pin_changes'],
     }
     broken = chk.prove(['SarpyModel.Props.C05', 'SarpyModel.Gen.XmlTables', 'SarpyModel.Drivers'], 'SarpyModel.Props.C05',
                        'Sarpy.Props.C05', REQUIRED, gen_info)
     for m, why in info['import_failures']:
         broken.append(f'element module {m} does not import: {why}')
+    for k in info['pin_changes']:
+        # a function of the generic machinery that Spec.XmlFmt transcribes by hand changed (normalised AST): the transcription is stale
+        broken.append(f'{k} changed since Spec.XmlFmt was transcribed from it (pinned AST in translate/xml_base_pins.json)')
+    for r in info['regressions']:
+        # a hand-written method no longer matches the construct it was translated to: the theorems no longer speak about this class
+        broken.append(f"class {r['cls']} was inside the model as '{r['expected']}' and is now '{r['now']}': {str(r['why'])[:400]}")
 
     mc = ModelCodec(info)
     gen = Generator()
@@ -1119,8 +1387,13 @@ def run(tier):
     mode_hist = {}
     drv = Driver()
     jobs = []
+    foreign_cands, fjobs = [], []
     t_budget = time.time()
     cases = plan(info, tier, rng)
+    for r in info['regressions']:
+        # widen the search on the classes whose translation broke
+        if r['cls'] in classes:
+            cases += [(r['cls'], m_, rng.getrandbits(48)) for m_ in ['full'] * 40 + ['random'] * 80]
     if tier == 'quick':
         egen = Generator(edge_strings=True)
         extra = [(q, 'random', rng.getrandbits(48)) for q in rng.sample(sorted(classes), 40)]
@@ -1131,8 +1404,18 @@ def run(tier):
     unit_tags = unit_vector_tags()
     lenient = dict(instances=0, instances_failing=0, examples={})
     lcases = [(q, 'lenient', rng.getrandbits(48)) for q in sorted(classes) for _ in range(1 if tier == 'quick' else 10)]
-    for which, (q, mode, seed) in [(0, c) for c in cases] + [(1, c) for c in extra] + [(2, c) for c in lcases]:
-        g = egen if which == 1 else gen
+    # every lenient (non-strict) enumeration / pattern field once (thorough: five times) with a value outside its domain
+    import inspect as _inspect
+    from sarpy.io.xml import descriptors as _D
+    ncases = []
+    for q in sorted(classes):
+        for f_ in classes[q]._fields:
+            d_ = _inspect.getattr_static(classes[q], f_, None)
+            if isinstance(d_, (_D.StringEnumDescriptor, _D.IntegerEnumDescriptor, _D.StringRegexDescriptor)) and not d_.strict:
+                ncases += [(q, ('only', f_), rng.getrandbits(48)) for _ in range(1 if tier == 'quick' else 5)]
+    stats['lenient_enumeration_fields'] = len({(q, m[1]) for q, m, _ in ncases})
+    for which, (q, mode, seed) in [(0, c) for c in cases] + [(1, c) for c in extra] + [(2, c) for c in lcases] + [(3, c) for c in ncases]:
+        g = egen if which == 1 else (Generator(nonstandard={(q, mode[1])}) if which == 3 else gen)
         c = classes[q]
         mname = mode if isinstance(mode, str) else mode[0]
         try:
@@ -1144,7 +1427,7 @@ def run(tier):
             continue
         if which != 2:
             stats['instances'] += 1
-            hk = mname + ('+edge-strings' if which else '')
+            hk = mname + ('+edge-strings' if which == 1 else '+value-outside-enumeration' if which == 3 else '')
             mode_hist[hk] = mode_hist.get(hk, 0) + 1
             classes_seen.add(q)
         is_root = q in roots
@@ -1170,8 +1453,8 @@ def run(tier):
         if f:
             find_triggers(x, c.__name__, trig)
         for ff in f:
-            ff.update(cls=q, mode=str(mode), seed=seed, edge_strings=bool(which))
-            ff['key'] = classify(ff, trig, unit_tags, bool(which))
+            ff.update(cls=q, mode=str(mode), seed=seed, edge_strings=which == 1, nonstandard=[q, mode[1]] if which == 3 else None)
+            ff['key'] = classify(ff, trig, unit_tags, which == 1)
             ra_, rb_ = ff.get('_raw', (None, None))
             uv = False
             if ff['kind'] == 'xml-stability' and isinstance(ra_, bytes):
@@ -1201,7 +1484,7 @@ def run(tier):
         if len(samples) < 3 and present and 'family-urn' in xmls:
             samples.append(f'{q}: {xmls["family-urn"][:200]!r}')
         # ---- model correspondence for table-driven classes
-        if q in info['outside'] or which != 0:
+        if q in info['outside'] or which not in (0, 3):
             continue
         if f:
             # the instance already fails the oracle (reported above): its XML is not what the generic machinery alone would write
@@ -1211,8 +1494,8 @@ def run(tier):
             try:
                 gcid = mc.cid(c, None)
                 order, seen = mc.mini(gcid)
-                tabs = mc.encode_tabs(order, seen)
                 texts = Texts()
+                tabs = mc.encode_tabs(order, seen, texts)
                 toks = []
                 value_tokens(x, gcid, mc, seen, texts, toks, False)
                 real = ElementTree.fromstring(b)
@@ -1235,10 +1518,69 @@ def run(tier):
                 dict_tokens(x, gcid, mc, texts, de)
                 i3 = drv.ask(f'xml dict {tabs} 0 {",".join(dt)}') if uname == list(xmls)[0] else None
                 jobs.append((q, mode, seed, uname, texts, ','.join(rtoks), ','.join(toks), ','.join(de), i1, i2, i3))
+                if uname == list(xmls)[0] and uname != 'no-namespace' and all(info['tables'][info['order'][i_]] is not None for i_ in order):
+                    # only classes whose whole closure is inside the model: inside a black box the model keeps the document as it is
+                    foreign_cands.append((q, mode, seed, c, is_root, urn, uname, b, dict(nsmap)))
             except Infra:
                 raise
             except Exception as e:
                 disagreements.append({'case': [q, str(mode), seed], 'msg': f'converting the instance to the model value raised {type(e).__name__}: {e}'})
+    # ---- documents sarpy did not write: the same reader on both sides (implementation: from_node; model: parseN)
+    derived_tags = {r['tag'][1] for rows in info['tables'].values() if isinstance(rows, list) for r in rows if r['kind'] in ('count', 'const', 'which') and not r.get('as_attr')}
+    n_foreign = 500 if tier == 'quick' else 8000
+    frng = random.Random(rng.getrandbits(48))
+    frng.shuffle(foreign_cands)
+    fstats = {op: 0 for op in FOREIGN_OPS}
+    fstats.update(refused_by_implementation=0, documents=0)
+    per_op_cap = max(1, n_foreign // len(FOREIGN_OPS)) * 2
+    for k, (q, mode, seed, c, is_root, urn, uname, b, nsmap) in enumerate(foreign_cands):
+        if fstats['documents'] >= n_foreign:
+            break
+        ops = list(FOREIGN_OPS)
+        frng.shuffle(ops)
+        ops.sort(key=lambda o: fstats[o])          # least used operator first
+        for op in ops:
+            if fstats[op] >= per_op_cap:
+                continue
+            try:
+                rws = info['tables'][(q, None)]
+                top = {r['tag'][1] for r in rws if r['kind'] in ('array', 'floatarr')} if isinstance(rws, list) else set()
+                root2 = foreign_variant(b, op, frng, derived_tags, top)
+            except Exception as e:
+                raise Infra(f'foreign_variant {op} on {q}: {type(e).__name__}: {e}')
+            if root2 is None:
+                continue
+            nsdecl = {('' if pfx is None else pfx): uri for uri, pfx in nsmap.items()}
+            b2 = foreign_bytes(root2, nsdecl)
+            if b2 is None:
+                continue
+            try:
+                y = from_xml(c, b2, is_root)
+                refused = None
+            except Exception as e:
+                y, refused = None, type(e).__name__
+            try:
+                gcid = mc.cid(c, None)
+                order, seen = mc.mini(gcid)
+                texts = Texts()
+                tabs = mc.encode_tabs(order, seen, texts)
+                rtoks = []
+                et_to_tokens(ElementTree.fromstring(b2), nsmap, mc, texts, rtoks)
+                if refused is None:
+                    vt = []
+                    value_tokens(y, gcid, mc, seen, texts, vt, False)
+                    expect = ','.join(vt)
+                else:
+                    expect = 'none'
+                fjobs.append((q, str(mode), seed, op, refused, expect, texts, drv.ask(f'xml par {tabs} 0 {",".join(rtoks)}'), b2[:1500]))
+                fstats[op] += 1
+                fstats['documents'] += 1
+                fstats['refused_by_implementation'] += refused is not None
+            except Infra:
+                raise
+            except Exception as e:
+                disagreements.append({'case': [q, str(mode), seed, 'foreign:' + op], 'msg': f'converting the re-parsed instance raised {type(e).__name__}: {e}'})
+            break
     # ---- ask the model
     try:
         ans = drv.run()
@@ -1260,7 +1602,6 @@ def run(tier):
                 disagreements.append({'case': case, 'msg': 'the implementation holds a value the model calls ill-formed for its class', 'value': val[:300]})
             if rt != 'true' or stable != 'true':
                 disagreements.append({'case': case, 'msg': f'model round trip {rt} / stability {stable} on a value of the implementation', 'value': val[:300]})
-            node = decode_size_texts(node, texts)
             if norm_empty(node, texts) != norm_empty(real, texts):
                 disagreements.append({'case': case, 'msg': 'model serialisation differs from the XML the implementation wrote',
                                       'model': explain(node, real, texts, mc)[0], 'python': explain(node, real, texts, mc)[1]})
@@ -1276,14 +1617,31 @@ def run(tier):
                 elif d[3] != dexp:
                     disagreements.append({'case': case, 'msg': 'model dict form differs from to_dict()',
                                           'model': explain(d[3], dexp, texts, mc)[0], 'python': explain(d[3], dexp, texts, mc)[1]})
+    if ans is not None:
+        def n0(t):
+            return ','.join('A' if x == 'N0' else x for x in t.split(','))
+        for q, mode, seed, op, refused, expect, texts, i, doc in fjobs:
+            stats['model_foreign_documents_compared'] = stats.get('model_foreign_documents_compared', 0) + 1
+            if n0(ans[i]) != n0(expect):
+                ex = explain(n0(ans[i]), n0(expect), texts, mc)
+                disagreements.append({'case': [q, mode, seed, 'foreign:' + op],
+                                      'msg': 'reading a document sarpy did not write (' + op + '): model '
+                                             + ('refuses' if ans[i] == 'none' else 'accepts') + ', implementation '
+                                             + (f'refuses ({refused})' if refused else 'accepts'),
+                                      'model': ex[0], 'python': ex[1], 'document': doc.decode('utf-8', 'replace')})
+    stats['foreign_documents'] = fstats
     stats['oracle_failures'] = len(fails)
     stats['empty_collection_equals_absent'] = COUNTERS['empty_collection_equals_absent']
     never = sorted(set(classes) - classes_seen)
     chk.coverage.update({
-        'evaluations': stats['instances'] + stats['model_nodes_compared'] + stats['model_parses_compared'] + stats['model_dicts_compared'],
+        'evaluations': stats['instances'] + stats['model_nodes_compared'] + stats['model_parses_compared'] + stats['model_dicts_compared']
+        + stats.get('model_foreign_documents_compared', 0),
         'distinct_nontrivial': len(patterns),
         'rule': 'instances generated from the descriptors of every Serializable class of the element packages: all fields absent, all present, each field '
-                'alone, fields left out, random subsets; collections of 0-3 entries; floats from a pool of extremes (-0.0, denormals, 1e308, max, 2^53+1, '
+                'alone, fields left out, random subsets; collections of 0-4 entries (and the fixed sizes of the class); coefficient arrays of order 0..5 per '
+                'variable, all-zero / dense / sparse patterns with -0.0, denormals and 1e308; parameter names never in sorted order; edited documents (Coef '
+                'children permuted, zero coefficients dropped, index attributes shuffled, parameter names repeated / reversed, derived elements changed or '
+                'dropped, size attributes off by one or two, arrays longer / shorter than their bounds); floats from a pool of extremes (-0.0, denormals, 1e308, max, 2^53+1, '
                 'halfway cases, inf, nan) and random bit patterns; integers to 10^30; strings long (5000), non-ASCII, XML-special, multi-line; every enum value '
                 'drawn from the descriptor; dates 0001..9999; a separate stream with empty and whitespace-edged strings. distinct = (class, set of present '
                 'fields) pairs that passed the oracle with at least one field present',
@@ -1306,8 +1664,17 @@ def run(tier):
         'fidelity is what the node-by-node comparison of the model serialisation with the real XML checks',
         'primitive text codecs (float <-> "0.17G"/"0.17E"/str, int, bool, datetime64, enum strings) are an abstract parameter of the theorems with an explicit '
         'round-trip hypothesis; that hypothesis is tested bit for bit on the implementation, not proved',
-        'classes outside the generic machinery (hand-written to_node/from_node/to_dict/from_dict/copy, property-backed fields, float arrays; listed under '
-        'translator.outside) are black boxes in the theorems and are covered by the oracle only',
+        'hand-written methods enter the model through AST templates (translate/tables_xml.py: coefficient arrays, wrapped parameter collections, read-only and '
+        'string-backed properties, legacy-dispatching from_node, copy with a private attribute): a method that deviates from its template takes the class out of '
+        'the model, which is reported as a broken obligation against the committed list translate/xml_constructs_expected.json; the templates themselves and the '
+        'transcription of base.py into Spec.XmlFmt are validated by the node-by-node differential (own documents and edited documents), not proved',
+        'classes that stay outside (translator.outside, with the reason for each) are black boxes in the theorems and are covered by the oracle only',
+        'legacy branches of from_node (SICD < 1.0 MatchInfo / Radiometric / WgtType text form, SIDD version dispatch) are outside the model: the claim is for documents '
+        'that do not take them',
+        'reader leniencies not modelled: int() accepts signs, blanks and leading zeros in size / index / exponent attributes, a negative exponent wraps around '
+        '(numpy indexing); such documents are not generated',
+        'a failure inside a nested structure is swallowed by SerializableDescriptor (the field becomes None) where the model refuses the whole document: documents '
+        'that make a reader refuse are generated at the top level only',
         'an empty collection and an absent one have the same XML (nothing is written): the XML comparison identifies them; the dict and copy comparisons do not',
         'canonicalising descriptors (UnitVectorDescriptor, FloatModularDescriptor) are compared to rounding error (4e-15 relative / 1e-9 of the modulus); unit-vector '
         'inputs are drawn with moderate magnitudes (1e-3..1e6)',
@@ -1358,15 +1725,15 @@ def explain(model, python, texts, mc):
         try:
             if t[:1] == 'E':
                 p = t[1:].split(':')
-                tx = '-' if p[3] == '-' else repr(texts.names[int(p[3])][:30])
+                tx = '-' if p[3] == '-' else repr(texts.name(int(p[3]))[:30])
                 return f'<{mc.nss.names[int(p[0])] or ""}:{mc.tags.names[int(p[1])]} attrs={p[2]} text={tx} children={p[4]}>'
             if t[:1] == 'P':
-                return 'P' + repr(texts.names[int(t[1:])][:30])
+                return 'P' + repr(texts.name(int(t[1:]))[:30])
             if t[:1] == 'K' and t[1:].isdigit():
                 return 'K:' + mc.names.names[int(t[1:])]
             if t[:1].isdigit():
                 p = t.split(':')
-                return f'@{mc.nss.names[int(p[0])] or ""}:{mc.tags.names[int(p[1])]}={texts.names[int(p[2])][:30]!r}'
+                return f'@{mc.nss.names[int(p[0])] or ""}:{mc.tags.names[int(p[1])]}={texts.name(int(p[2]))[:30]!r}'
         except Exception:
             pass
         return t
@@ -1389,7 +1756,7 @@ def replay(path):
     if mode.startswith('('):
         import ast
         mode = ast.literal_eval(mode)
-    g = Generator(edge_strings=bool(case.get('edge_strings')))
+    g = Generator(edge_strings=bool(case.get('edge_strings')), nonstandard=[tuple(case['nonstandard'])] if case.get('nonstandard') else ())
     c, x = run_case(g, info, q, mode, case['seed'])
     is_root = q in set(info['roots'])
     urn = family_urn(c)
